@@ -475,7 +475,7 @@ func SpecFnv(key []byte) uint32 { panic("abstract spec function") }
 //@   properties C04 C20 C03
 //@   ghost var ended mathint = 0
 //@   ghost var ctxDone mathint = 0
-//@   modifies heap, ended, ctxDone, consumed, got, handed
+//@   modifies heap, ended, ctxDone, consumed, taken, handed
 //@   chan rdbPipe: nonnil: recv != nil
 //@   set ended = ite(recvok && !recv.Done && recv.Err == nil, ended, 1) after recv rdbPipe
 //@   set ctxDone = 1 after recv ctx.Done()
@@ -486,15 +486,15 @@ func SpecFnv(key []byte) uint32 { panic("abstract spec function") }
 //@   assert at call Store: a_snapshot_is_complete_only_at_the_size_the_source_announced: nsize > 0 ==> consumed == nsize
 //@   replay syncer_zeroCrcEarlyEnd syncer_emptyKeySplitFanout
 //@   assert after store idx: every_chunk_of_a_key_goes_to_the_same_worker_whatever_the_keys_length [C20 C03]: e != nil && e.ObjectParser != nil && rdb.SpecObjType(e.ObjectParser) != rdb.RdbObjectFunction && rdb.SpecObjType(e.ObjectParser) != rdb.RdbObjectAux ==> idx == SpecFnv(e.Key) % pipeLen
-//   got / handed  snapshot entries taken off the parser's pipe / handed to a replay worker or the global lane
-//@   ghost var got mathint = 0
+//   taken / handed  snapshot entries taken off the parser's pipe / handed to a replay worker or the global lane
+//@   ghost var taken mathint = 0
 //@   ghost var handed mathint = 0
-//@   set got = ite(recvok && !recv.Done && recv.Err == nil, got + 1, got) after recv rdbPipe
+//@   set taken = ite(recvok && !recv.Done && recv.Err == nil, taken + 1, taken) after recv rdbPipe
 //@   set handed = handed + 1 after send pipes
 //@   set handed = handed + 1 after send globalPipe
 //@   loop 1:
 //@     invariant progress: ended == 0
-//@     invariant every_entry_of_the_snapshot_reaches_a_replay_worker [C20 C03 C04]: handed == got
+//@     invariant every_entry_of_the_snapshot_reaches_a_replay_worker [C20 C03 C04]: handed == taken
 
 // ---- key-exists policy on the bidirectional full-sync path (C20) ---------------------------
 //@ func bisyncRdbReplayState.beginKey
